@@ -218,20 +218,29 @@ def keep (t : α) : List α := if t > zero ∧ t < one then [t] else []
 /-- `b * b - S::FOUR * a * c` -/
 def disc (a b c : α) : α := b * b - four * a * c
 
-/-- the two-root branch: both roots, swapped into increasing order, each kept if in range.
-(The code as it is: `(-b ∓ sqrt d) / (2a)`; correct over a field, but in floating point the
-subtraction cancels when `|4ac| ≪ b²` — finding `C11-cubic-extremum-cancellation`.) -/
-def twoRoots (a b s : α) : List α :=
-  if (-b - s) / (two * a) > (-b + s) / (two * a)
-  then keep ((-b + s) / (two * a)) ++ keep ((-b - s) / (two * a))
-  else keep ((-b - s) / (two * a)) ++ keep ((-b + s) / (two * a))
+/-- `b.signum()`: `1` for `b ≥ +0.0`, `-1` for `b ≤ -0.0` (the sign bit of a zero is read through
+`1 / b`, which is `±inf` on floats; over a field `1 / 0 = 0` and the result is `1`) -/
+def signum (b : α) : α :=
+  if b < zero then -one else if b == zero ∧ one / b < zero then -one else one
+
+/-- `let q = -(b + b.signum() * discriminant_sqrt) / S::TWO;` -/
+def rootQ (b s : α) : α := -(b + signum b * s) / two
+
+/-- the two-root branch (as repaired by lyon commit 67fbe059): `q / a` and `c / q`, swapped into
+increasing order, each kept if in range.
+(Before the fix: `(-b ∓ sqrt d) / (2a)`, which is the same pair of roots over a field but cancels
+in floating point when `|4ac| ≪ b²` — former finding `C11-cubic-extremum-cancellation`.) -/
+def twoRoots (a b c s : α) : List α :=
+  if rootQ b s / a > c / rootQ b s
+  then keep (c / rootQ b s) ++ keep (rootQ b s / a)
+  else keep (rootQ b s / a) ++ keep (c / rootQ b s)
 
 /-- `for_each_local_extremum` on the derivative coefficients -/
 def extremaOf [Transc α] (a b c : α) : List α :=
   if a == zero then (if b != zero then keep (-c / b) else [])
   else if disc a b c < zero then []
   else if disc a b c == zero then keep (-b / (two * a))
-  else twoRoots a b (Transc.sqrt (disc a b c))
+  else twoRoots a b c (Transc.sqrt (disc a b c))
 
 /-- `for_each_local_extremum(p0, p1, p2, p3, cb)` (callback sequence as a list) -/
 def localExtrema [Transc α] (p0 p1 p2 p3 : α) : List α :=
@@ -303,27 +312,25 @@ def monotonicRanges (c : Cubic α) : List (α × α) :=
 def xMonotonicRanges (c : Cubic α) : List (α × α) := rangesAll zero c.localXExtremaT
 def yMonotonicRanges (c : Cubic α) : List (α × α) := rangesAll zero c.localYExtremaT
 
+/-- `if up { ctrl1.max(from) } else { ctrl1.min(from) }` with `up = to >= from` -/
+def clampEnd1 (c1 a b : α) : α := if b ≥ a then Scalar.max c1 a else Scalar.min c1 a
+/-- `if up { ctrl2.min(to) } else { ctrl2.max(to) }` with `up = to >= from` -/
+def clampEnd2 (c2 a b : α) : α := if b ≥ a then Scalar.min c2 b else Scalar.max c2 b
+
+/-- the end-tangent clamp of `for_each_monotonic` (as repaired by lyon commit 821d0dd7; before the
+fix both control points were clamped into the coordinate range of the endpoints, which changed
+monotone cubics such as `(0,0) (1,1) (−1,2) (4,3)` — former finding `C11-cubic-monotonic-clamp`) -/
 def clampXY (s : Cubic α) : Cubic α :=
   ⟨s.a,
-   ⟨clampTo s.c1.x (Scalar.min s.a.x s.b.x) (Scalar.max s.a.x s.b.x),
-    clampTo s.c1.y (Scalar.min s.a.y s.b.y) (Scalar.max s.a.y s.b.y)⟩,
-   ⟨clampTo s.c2.x (Scalar.min s.a.x s.b.x) (Scalar.max s.a.x s.b.x),
-    clampTo s.c2.y (Scalar.min s.a.y s.b.y) (Scalar.max s.a.y s.b.y)⟩,
+   ⟨clampEnd1 s.c1.x s.a.x s.b.x, clampEnd1 s.c1.y s.a.y s.b.y⟩,
+   ⟨clampEnd2 s.c2.x s.a.x s.b.x, clampEnd2 s.c2.y s.a.y s.b.y⟩,
    s.b⟩
 def clampX (s : Cubic α) : Cubic α :=
-  ⟨s.a,
-   ⟨clampTo s.c1.x (Scalar.min s.a.x s.b.x) (Scalar.max s.a.x s.b.x), s.c1.y⟩,
-   ⟨clampTo s.c2.x (Scalar.min s.a.x s.b.x) (Scalar.max s.a.x s.b.x), s.c2.y⟩,
-   s.b⟩
+  ⟨s.a, ⟨clampEnd1 s.c1.x s.a.x s.b.x, s.c1.y⟩, ⟨clampEnd2 s.c2.x s.a.x s.b.x, s.c2.y⟩, s.b⟩
 def clampY (s : Cubic α) : Cubic α :=
-  ⟨s.a,
-   ⟨s.c1.x, clampTo s.c1.y (Scalar.min s.a.y s.b.y) (Scalar.max s.a.y s.b.y)⟩,
-   ⟨s.c2.x, clampTo s.c2.y (Scalar.min s.a.y s.b.y) (Scalar.max s.a.y s.b.y)⟩,
-   s.b⟩
+  ⟨s.a, ⟨s.c1.x, clampEnd1 s.c1.y s.a.y s.b.y⟩, ⟨s.c2.x, clampEnd2 s.c2.y s.a.y s.b.y⟩, s.b⟩
 
-/-- `for_each_monotonic` (the code as it is: both control points are clamped into the range of the
-piece's endpoints, which changes a monotone cubic whose control points lie outside that range —
-finding `C11-cubic-monotonic-clamp`) -/
+/-- `for_each_monotonic` -/
 def monotonicPieces (c : Cubic α) : List (Cubic α) :=
   c.monotonicRanges.map (fun r => clampXY (c.splitRange r.1 r.2))
 def xMonotonicPieces (c : Cubic α) : List (Cubic α) :=
@@ -362,9 +369,11 @@ def ordSnd (a1 a2 sign : α) : α := if a1 * sign > a2 * sign then a1 else a2
 
 /-- `if a < abs_sweep { cb(a / abs_sweep) }` -/
 def emitPos (a absSweep : α) : List α := if a < absSweep then [a / absSweep] else []
-/-- `if a > two_pi - abs_sweep { cb(a / abs_sweep) }`  (the code as it is: see finding
+/-- `if a > two_pi - abs_sweep { cb((two_pi - a) / abs_sweep) }`  (as repaired by lyon commit
+3f341fdf; before the fix `a / abs_sweep` was emitted — former finding
 `C11-arc-negative-sweep-extremum`) -/
-def emitNeg (a absSweep twoPi : α) : List α := if a > twoPi - absSweep then [a / absSweep] else []
+def emitNeg (a absSweep twoPi : α) : List α :=
+  if a > twoPi - absSweep then [(twoPi - a) / absSweep] else []
 
 /-- `for_each_extremum_inner(a1, a2, cb)`, callback sequence as a list -/
 def extremumInner (arc : Arc α) (a1 a2 : α) : List α :=
@@ -419,10 +428,17 @@ def outerTransformedBox (m : Xf α) (b : Box α) : Box α :=
   Box.fromPoints (m.apply b.min)
     [m.apply b.max, m.apply ⟨b.max.x, b.min.y⟩, m.apply ⟨b.min.x, b.max.y⟩]
 
-/-- `fast_bounding_box` (the code as it is: the box around the centre is rotated about the
-*origin*; see finding `C11-arc-fast-box-rotates-about-origin`) -/
+/-- `Box2D::translate(by)`: `{ min: min + by, max: max + by }` -/
+def translateBox (b : Box α) (v : P α) : Box α := ⟨b.min + v, b.max + v⟩
+
+/-- `fast_bounding_box` (as repaired by lyon commit c4f6194c): the box of the radii around the
+origin is rotated, then translated to the centre.  (Before the fix the box around the *centre* was
+rotated about the origin — former finding `C11-arc-fast-box-rotates-about-origin`.) -/
 def fastBoundingBox (arc : Arc α) : Box α :=
-  outerTransformedBox (rotationXf arc.xrot) ⟨arc.center - arc.radii, arc.center + arc.radii⟩
+  translateBox
+    (outerTransformedBox (rotationXf arc.xrot)
+      ⟨(⟨zero, zero⟩ : P α) - arc.radii, (⟨zero, zero⟩ : P α) + arc.radii⟩)
+    arc.center
 
 end Arc
 
